@@ -1,11 +1,12 @@
 """Per-property pipelines (what is modelled, generated, run and judged) on top of lib/engine.py."""
+import concurrent.futures as cf
 import json
 import os
 
 from engine import *  # noqa
 
 ASSUME_COMMON = [
-    'TLC 1.8 / CommunityModules Json evaluate the monitors correctly',
+    'TLC 1.8 / CommunityModules Json evaluate the trace specifications correctly',
     'the Go harness records calls, results and writer/reader bytes faithfully (recorder, concretiser, fault wrappers)',
 ]
 
@@ -23,20 +24,77 @@ def tag_scenarios(scs, prefix, seed, kind):
 
 def samples_of(scs, n=3):
     res = []
+    if not scs:
+        return res
     step = max(1, len(scs) // n)
     for s in scs[::step][:n]:
         js = json.dumps(s)
-        res.append(json.loads(js) if len(js) < 4000 else {'sid': s.get('sid'), 'truncated': js[:4000]})
+        res.append(json.loads(js) if len(js) < 3000 else {'sid': s.get('sid'), 'truncated_json': js[:3000]})
     return res
 
 
-# ------------------------------------------------------------------ muxer family: C04, C05, C17
+def pipeline(ctx, monitor, family, scenarios, opt='', consts='', drift_fn=None, rule='', nontrivial=None, assumptions=(),
+             exhaustive=False, extra_cov=None, binary=None):
+    """RUN all scenarios on the real code (sharded over the cores), JUDGE each shard with the monitor, classify, write evidence"""
+    by_sid = {s['sid']: s for s in scenarios}
+    if len(by_sid) != len(scenarios):
+        raise Machinery('duplicate scenario ids')
+    k = max(1, min(NCPU, len(scenarios) // 20 + 1))
+    parts = [scenarios[i::k] for i in range(k)]
 
-MUX_MON = {'C04': 'Mon_C04', 'C05': 'Mon_C05', 'C17': 'Mon_C17'}
+    def one(i):
+        sp = ctx.path('scn_%s_%d.ndjson' % (monitor, i))
+        tp = ctx.path('trace_%s_%d.ndjson' % (monitor, i))
+        with open(sp, 'w') as f:
+            for s in parts[i]:
+                f.write(json.dumps(s) + '\n')
+        harness_run(ctx, family, sp, tp, opt, binary=binary)
+        os.remove(sp)
+        return tp
+
+    with cf.ThreadPoolExecutor(max_workers=NCPU) as ex:
+        traces = list(ex.map(one, range(k)))
+    drift = None
+    if drift_fn:
+        d, compared, dex = drift_fn(ctx, traces)
+        drift = {'compared': compared, 'differing': d, 'examples': dex}
+        log('DRIFT model-vs-code: %d of %d predictions differ%s' % (d, compared, (' e.g. ' + json.dumps(dex[0])) if dex else ''))
+    sample_events = []
+    with open(traces[0]) as f:
+        for _ in range(8):
+            line = f.readline()
+            if line:
+                e = json.loads(line)
+                if 'b' in e and isinstance(e['b'], list) and len(e['b']) > 24:
+                    e['b'] = e['b'][:24] + ['... %d bytes' % len(e['b'])]
+                sample_events.append(e)
+    viols, events = judge_many(ctx, monitor, traces, consts)
+    nt = nontrivial or (lambda s: True)
+    shapes = {shape_hash(s) for s in scenarios if nt(s)}
+    cov = {
+        'states': max(1, ctx.stats['states']), 'transitions': max(1, ctx.stats['transitions']),
+        'traces_validated_against_impl': len(scenarios), 'evaluations': events,
+        'distinct_nontrivial': len(shapes), 'rule': rule,
+        'samples': samples_of(scenarios, 3) + [{'first_trace_events': sample_events}],
+        'exhaustive': exhaustive,
+        'model_runs': ctx.stats['model_runs'], 'gen_runs': ctx.stats['gen_runs'],
+        'checker_cmd': 'java tlc2.TLC -workers 1 %s.tla (trace specification) over ndjson traces recorded by `harness run -family %s`' % (monitor, family),
+        'trusted_base': ASSUME_COMMON,
+    }
+    if drift is not None:
+        cov['drift'] = drift
+    if extra_cov:
+        cov.update(extra_cov)
+    return finish(ctx, family, monitor, by_sid, viols, events, cov, list(ASSUME_COMMON) + list(assumptions), opt=opt, consts=consts)
+
+
+# ------------------------------------------------------------------ muxer family: C01, C04, C05, C17
+
+MUX_MON = {'C04': 'Mon_C04', 'C05': 'Mon_C05', 'C17': 'Mon_C17', 'C01': 'Mon_C01'}
 
 
 def mux_drift(ctx, traces):
-    """compare what the system model predicted for TLC-generated scenarios with the decoded real output (info only)"""
+    """compare what Mux.tla predicted for TLC-generated scenarios with the decoded real output (informational)"""
     drift = 0
     compared = 0
     examples = []
@@ -78,6 +136,9 @@ def mux_drift(ctx, traces):
                     if pid in (0, 4096):
                         af, n = 0, 184
                     pk.append([pid, b[3] & 15, (b[1] >> 6) & 1, af, n])
+                elif e['ev'] in ('deliver', 'eof'):
+                    flush()
+                    cur = None
         flush()
     return drift, compared, examples
 
@@ -92,57 +153,37 @@ def run_mux_family(ctx, prop):
     gen = gen_tlc(ctx, 'Mux', 'Mux_gen_quick.cfg' if quick else 'Mux_gen_deep.cfg')
     scs = tag_scenarios(gen, 'mg', ctx.seed, 'mux')
     # seeded random long histories (wrap-arounds, periods 1..50, large payloads) from the harness's generator
-    rnd = harness_gen(ctx, 'mux', 150 if quick else 3000, ctx.seed, 60 if quick else 220)
-    for s in rnd:
-        s['sid'] = 'mr-' + s['sid']
-    allscs = scs + rnd
-    by_sid = {s['sid']: s for s in allscs}
-    # RUN + JUDGE (keep traces of the TLC-generated part for drift)
-    k = NCPU
-    parts = [allscs[i::k] for i in range(k)]
-    traces = []
-    import concurrent.futures as cf
+    opt = 'demux' if prop == 'C01' else ''
+    rnd = harness_gen(ctx, 'mux', 150 if quick else 3000, ctx.seed, 60 if quick else 220, opt=opt)
+    return pipeline(
+        ctx, monitor, 'mux', scs + rnd, opt=opt, drift_fn=mux_drift,
+        rule='scenario = muxer history (period + operation list); TLC-generated: one per transition of the Mux.tla state graph; random: seeded '
+             'generator harness/muxgen.go; non-trivial = at least one packet-producing call; distinct by hash of period+ops',
+        nontrivial=lambda s: any(o['op'] in ('data', 'tables', 'packet') for o in s['ops']),
+        assumptions=['C17: an additional table emission is not a violation; failed calls are not counted (DESIGN.md 7)',
+                     'C04: caller-built WritePacket packets are judged for structure only',
+                     'C01: elementary PIDs are >= 0x20 and differ from the PMT PID 0x1000 and 0x1FFF; adaptation fields that do not fit with the PES header are compared for payload/header only'])
 
-    def one(i):
-        sp = ctx.path('scn_%d.ndjson' % i)
-        tp = ctx.path('trace_%d.ndjson' % i)
-        with open(sp, 'w') as f:
-            for s in parts[i]:
-                f.write(json.dumps(s) + '\n')
-        harness_run(ctx, 'mux', sp, tp)
-        return tp
-    with cf.ThreadPoolExecutor(max_workers=NCPU) as ex:
-        traces = list(ex.map(one, range(k)))
-    drift, compared, dex = mux_drift(ctx, traces)
-    log('DRIFT model-vs-code: %d of %d predicted calls differ%s' % (drift, compared, (' e.g. ' + json.dumps(dex[0])) if dex else ''))
-    sample_events = []
-    with open(traces[0]) as f:
-        for _ in range(6):
-            l = f.readline()
-            if l:
-                sample_events.append(json.loads(l))
-    viols, events = judge_many(ctx, monitor, traces)
-    shapes = {shape_hash(s) for s in allscs if any(o['op'] in ('data', 'tables', 'packet') for o in s['ops'])}
-    cov = {
-        'states': ctx.stats['states'], 'transitions': ctx.stats['transitions'],
-        'traces_validated_against_impl': len(allscs), 'evaluations': events,
-        'distinct_nontrivial': len(shapes),
-        'rule': 'scenario = muxer history (period + operation list); TLC-generated: one per transition of Mux.tla state graph; '
-                'random: seeded generator in harness/muxgen.go; non-trivial = emits at least one packet-producing call; distinct by hash of period+ops',
-        'samples': samples_of(scs, 2) + samples_of(rnd, 1) + [{'trace_events': sample_events}],
-        'exhaustive': False,
-        'model_runs': ctx.stats['model_runs'], 'gen_runs': ctx.stats['gen_runs'],
-        'drift': {'compared_calls': compared, 'differing': drift, 'examples': dex},
-        'checker_cmd': 'tlc -workers 1 %s.tla (trace spec) over traces recorded by harness run -family mux' % monitor,
-        'trusted_base': ASSUME_COMMON,
-    }
-    return finish(ctx, 'mux', monitor, by_sid, viols, events, cov, ASSUME_COMMON + [
-        'C17: an additional table emission is not a violation; failed calls are not counted (DESIGN.md 7)',
-        'C04: caller-built WritePacket packets are judged for structure only'])
+
+# ------------------------------------------------------------------ C18: I/O failures surfaced
+
+def run_c18(ctx):
+    build_harness(ctx)
+    quick = ctx.tier == 'quick'
+    model_check(ctx, 'Writer', 'Writer_ideal.cfg')
+    scs = harness_gen(ctx, 'muxfault', 12 if quick else 120, ctx.seed, 4)
+    return pipeline(
+        ctx, 'Mon_C18', 'mux', scs,
+        rule='fault enumeration: for each base muxer history (last packet needing 0/1/2/3/many stuffing bytes, WriteTables, WritePacket) one run per '
+             'index of the writer\'s Write calls x {one-shot, permanent}; distinct by (history, index, mode)',
+        exhaustive=False,
+        assumptions=['per-call reading of "byte count no larger than what the writer accepted"'])
 
 
 PROPS = {
+    'C01': lambda ctx: run_mux_family(ctx, 'C01'),
     'C04': lambda ctx: run_mux_family(ctx, 'C04'),
     'C05': lambda ctx: run_mux_family(ctx, 'C05'),
     'C17': lambda ctx: run_mux_family(ctx, 'C17'),
+    'C18': run_c18,
 }
